@@ -6,7 +6,7 @@ namespace Vgi.Values
 /-- Leaves: a supported, representable leaf encodes to a non-null cell that decodes to the leaf
 at its documented precision. `t'` is the field type as declared (possibly a pointer). -/
 theorem leaf_roundtrip (t' : GoTy) (a : ATy) (v : Val) (h : LeafWT (derefTy t') a v) :
-    ∃ c, encodeLeaf a v = .ok c ∧ c ≠ .null ∧ decodeNN t' c = .ok (leafCanon a v) := by
+    ∃ c, encodeLeaf a v = .ok c ∧ c ≠ .null ∧ decode t' c = .ok (leafCanon a v) := by
   generalize hd : derefTy t' = d at h
   unfold LeafWT at h
   split at h
@@ -14,63 +14,40 @@ theorem leaf_roundtrip (t' : GoTy) (a : ATy) (v : Val) (h : LeafWT (derefTy t') 
     rename_i g w x
     obtain ⟨hg, hw, h1, h2⟩ := h
     refine ⟨.int w (encodeInt w x), by simp [encodeLeaf], by simp, ?_⟩
-    simp [decodeNN, hd, decodeLeafInt, leafCanon, int_value_roundtrip g w x hg hw h1 h2]
-  · (simp only [encodeLeaf]; exact ⟨_, rfl, by simp, by simp [decodeNN, hd, leafCanon]⟩)
-  · (simp only [encodeLeaf]; exact ⟨_, rfl, by simp, by simp [decodeNN, hd, leafCanon]⟩)
-  · (simp only [encodeLeaf]; exact ⟨_, rfl, by simp, by simp [decodeNN, hd, leafCanon]⟩)
-  · (simp only [encodeLeaf]; exact ⟨_, rfl, by simp, by simp [decodeNN, hd, leafCanon]⟩)
-  · (simp only [encodeLeaf]; exact ⟨_, rfl, by simp, by simp [decodeNN, hd, leafCanon]⟩)
-  · (simp only [encodeLeaf]; exact ⟨_, rfl, by simp, by simp [decodeNN, hd, leafCanon]⟩)
+    simp [decode, hd, decodeLeafInt, leafCanon, int_value_roundtrip g w x hg hw h1 h2]
+  · (simp only [encodeLeaf]; exact ⟨_, rfl, by simp, by simp [decode, hd, leafCanon]⟩)
+  · (simp only [encodeLeaf]; exact ⟨_, rfl, by simp, by simp [decode, hd, leafCanon]⟩)
+  · (simp only [encodeLeaf]; exact ⟨_, rfl, by simp, by simp [decode, hd, leafCanon]⟩)
+  · (simp only [encodeLeaf]; exact ⟨_, rfl, by simp, by simp [decode, hd, leafCanon]⟩)
+  · (simp only [encodeLeaf]; exact ⟨_, rfl, by simp, by simp [decode, hd, leafCanon]⟩)
+  · (simp only [encodeLeaf]; exact ⟨_, rfl, by simp, by simp [decode, hd, leafCanon]⟩)
   · -- decimal
     rename_i x
     obtain ⟨n, hn⟩ := h
-    exact ⟨.dec n, by simp [encodeLeaf, hn], by simp, by simp [decodeNN, hd, leafCanon, hn]⟩
-  · (simp only [encodeLeaf]; exact ⟨_, rfl, by simp, by simp [decodeNN, hd, leafCanon]⟩)
-  · (simp only [encodeLeaf]; exact ⟨_, rfl, by simp, by simp [decodeNN, hd, leafCanon]⟩)
+    exact ⟨.dec n, by simp [encodeLeaf, hn], by simp, by simp [decode, hd, leafCanon, hn]⟩
+  · (simp only [encodeLeaf]; exact ⟨_, rfl, by simp, by simp [decode, hd, leafCanon]⟩)
+  · (simp only [encodeLeaf]; exact ⟨_, rfl, by simp, by simp [decode, hd, leafCanon]⟩)
   · rename_i w b
-    exact ⟨.bin .fixed b, by simp [encodeLeaf, h], by simp, by simp [decodeNN, hd, leafCanon]⟩
+    exact ⟨.bin .fixed b, by simp [encodeLeaf, h], by simp, by simp [decode, hd, leafCanon]⟩
   · -- date
     rename_i t
-    (simp only [encodeLeaf]; exact ⟨_, rfl, by simp, by simp [decodeNN, hd, leafCanon, date_value_roundtrip t h]⟩)
+    (simp only [encodeLeaf]; exact ⟨_, rfl, by simp, by simp [decode, hd, leafCanon, date_value_roundtrip t h]⟩)
   · -- timestamp
     rename_i u t
     (simp only [encodeLeaf]; exact ⟨_, rfl, by simp,
-      by simp [decodeNN, hd, leafCanon, ts_value_roundtrip t ⟨h.1, h.2.1⟩ h.2.2.1 h.2.2.2]⟩)
+      by simp [decode, hd, leafCanon, ts_value_roundtrip t ⟨h.1, h.2.1⟩ h.2.2.1 h.2.2.2]⟩)
   · -- time of day
     rename_i t
-    (simp only [encodeLeaf]; exact ⟨_, rfl, by simp, by simp [decodeNN, hd, leafCanon, time_value_roundtrip t h]⟩)
+    (simp only [encodeLeaf]; exact ⟨_, rfl, by simp, by simp [decode, hd, leafCanon, time_value_roundtrip t h]⟩)
   · -- duration
     rename_i ns
-    (simp only [encodeLeaf]; exact ⟨_, rfl, by simp, by simp [decodeNN, hd, leafCanon, (dur_value_roundtrip ns h).1]⟩)
+    (simp only [encodeLeaf]; exact ⟨_, rfl, by simp, by simp [decode, hd, leafCanon, (dur_value_roundtrip ns h).1]⟩)
   · exact h.elim
 end Vgi.Values
 
 namespace Vgi.Values
 
 /-! ### small facts -/
-
-theorem decode_of_ne_null (t : GoTy) (c : Cell) (h : c ≠ .null) : decode t c = decodeNN t c := by
-  cases c <;> simp [decode] at h ⊢
-
-theorem decodeElems_cons (et : GoTy) (c : Cell) (r : Cells) :
-    decodeElems et (.cons c r) =
-      match decode et c with
-      | .error e => .error e
-      | .ok v => match decodeElems et r with
-        | .error e => .error e
-        | .ok vs => .ok (.cons v vs) := by
-  cases c <;> simp [decodeElems, decode]
-
-theorem decodeKVs_cons (kt vt : GoTy) (k v : Cell) (r : CKVs) :
-    decodeKVs kt vt (.cons k v r) =
-      match decodeNN kt k with
-      | .error e => .error e
-      | .ok kv => match decode vt v with
-        | .error e => .error e
-        | .ok vv => match decodeKVs kt vt r with
-          | .error e => .error e
-          | .ok rest => .ok (.cons kv vv rest) := by
-  cases v <;> simp [decodeKVs, decode]
 
 theorem tagName_nil : tagName [] = [] := by simp [tagName]
 
@@ -94,8 +71,492 @@ def SFields.length : SFields → Nat
   | .nil => 0
   | .cons _ _ _ r => r.length + 1
 
-theorem GoFields.app_snoc (p : GoFields) (tag atag : BStr) (t : GoTy) (s : GoFields) :
-    (p.app (.cons tag atag t .nil)).app s = p.app (.cons tag atag t s) := by
-  induction p with
-  | nil => rfl
-  | cons a b c r ih => simp [GoFields.app, ih]
+theorem GoFields.app_snoc : ∀ (p : GoFields) (tag atag : BStr) (t : GoTy) (s : GoFields),
+    (p.app (.cons tag atag t .nil)).app s = p.app (.cons tag atag t s)
+  | .nil, _, _, _, _ => rfl
+  | .cons a b c r, tag, atag, t, s => by simp [GoFields.app, GoFields.app_snoc r tag atag t s]
+
+theorem SFields.app_snoc : ∀ (p : SFields) (tag atag : BStr) (v : Val) (s : SFields),
+    (p.app (.cons tag atag v .nil)).app s = p.app (.cons tag atag v s)
+  | .nil, _, _, _, _ => rfl
+  | .cons a b c r, tag, atag, v, s => by simp [SFields.app, SFields.app_snoc r tag atag v s]
+
+theorem GoFields.tags_app : ∀ (p s : GoFields), (p.app s).tags = p.tags ++ s.tags
+  | .nil, _ => rfl
+  | .cons a b c r, s => by simp [GoFields.app, GoFields.tags, GoFields.tags_app r s]
+
+theorem SFields.tags_app : ∀ (p s : SFields), (p.app s).tags = p.tags ++ s.tags
+  | .nil, _ => rfl
+  | .cons a b c r, s => by simp [SFields.app, SFields.tags, SFields.tags_app r s]
+
+theorem SFields.length_app_snoc : ∀ (p : SFields) (tag atag : BStr) (v : Val),
+    (p.app (.cons tag atag v .nil)).length = p.length + 1
+  | .nil, _, _, _ => rfl
+  | .cons a b c r, tag, atag, v => by simp [SFields.app, SFields.length, SFields.length_app_snoc r tag atag v]
+
+theorem GoFields.length_app_snoc : ∀ (p : GoFields) (tag atag : BStr) (t : GoTy),
+    (p.app (.cons tag atag t .nil)).length = p.length + 1
+  | .nil, _, _, _ => rfl
+  | .cons a b c r, tag, atag, t => by simp [GoFields.app, GoFields.length, GoFields.length_app_snoc r tag atag t]
+
+/-! ### by-name encoding of struct children = positional encoding -/
+
+theorem hasArrow_false : ∀ (sfs : SFields) (name : BStr), NoArrowTags sfs.tags → name ≠ [] →
+    sfs.hasArrow name = false
+  | .nil, _, _, _ => rfl
+  | .cons tag atag v r, name, hna, hne => by
+    have h1 : atag = [] := hna (tag, atag) (by simp [SFields.tags])
+    have h2 := hasArrow_false r name (fun p hp => hna p (by simp [SFields.tags, hp])) hne
+    subst h1
+    simp [SFields.hasArrow, tagName_nil, h2]
+    exact hne
+
+theorem encodeByTag_app_fresh (a : ATy) (name : BStr) : ∀ (pre suf : SFields), Fresh name pre.tags →
+    encodeByTag a name (pre.app suf) = encodeByTag a name suf
+  | .nil, _, _ => rfl
+  | .cons tag atag v r, suf, hf => by
+    have h1 : tagName tag ≠ name := hf (tag, atag) (by simp [SFields.tags])
+    have h2 := encodeByTag_app_fresh a name r suf (fun p hp => hf p (by simp [SFields.tags, hp]))
+    simp [SFields.app, encodeByTag, h1, h2]
+
+/-- The Arrow children carry, in order, the tag names of the tagged fields. -/
+def AlignedA : List (BStr × BStr) → AFields → Prop
+  | [], afs => afs = .nil
+  | p :: r, afs =>
+    if tagged p.1 then
+      match afs with
+      | .nil => False
+      | .cons name _ _ ar => name = tagName p.1 ∧ AlignedA r ar
+    else AlignedA r afs
+
+/-- Every tagged name of `suf` is fresh with respect to `pre`. -/
+def FreshAll (pre suf : List (BStr × BStr)) : Prop := ∀ p ∈ suf, tagged p.1 = true → Fresh (tagName p.1) pre
+
+theorem freshAll_step (pre : List (BStr × BStr)) (p : BStr × BStr) (r : List (BStr × BStr))
+    (hf : FreshAll pre (p :: r)) (hd : NamesDistinct (p :: r)) : FreshAll (pre ++ [p]) r := by
+  intro q hq hqt x hx
+  simp only [List.mem_append, List.mem_singleton] at hx
+  rcases hx with hx | hx
+  · exact hf q (by simp [hq]) hqt x hx
+  · subst hx
+    by_cases hp : tagged x.1 = true
+    · have := (hd.1 hp).2 q hq
+      exact fun h => this h.symm
+    · have hu : tagName x.1 = [] := tagName_untagged x.1 (by simpa using hp)
+      rw [hu]
+      have hq' : NamesDistinct r := hd.2
+      -- q is tagged, so its name is non-empty
+      have : ∀ (l : List (BStr × BStr)), NamesDistinct l → q ∈ l → tagName q.1 ≠ [] := by
+        intro l
+        induction l with
+        | nil => intro _ h; simp at h
+        | cons y ys ih =>
+          intro hl hm
+          simp only [List.mem_cons] at hm
+          rcases hm with hm | hm
+          · subst hm; exact (hl.1 hqt).1
+          · exact ih hl.2 hm
+      exact fun h => this r hq' hq h.symm
+
+theorem encode_byName_pos (sfs0 : SFields) (hna : NoArrowTags sfs0.tags) :
+    ∀ (suf pre : SFields) (afs : AFields) (cfs : CFields),
+      sfs0 = pre.app suf → AlignedA suf.tags afs → NamesDistinct suf.tags → FreshAll pre.tags suf.tags →
+      encodeTop afs suf = .ok cfs →
+      afs.mapM (fun name ca => if sfs0.hasArrow name then encodeByArrow ca name sfs0
+        else encodeByTag ca name sfs0) = .ok cfs
+  | .nil, pre, afs, cfs, _, hal, _, _, he => by
+    simp only [SFields.tags, AlignedA] at hal
+    subst hal
+    simp only [encodeTop] at he
+    cases he
+    rfl
+  | .cons tag atag v r, pre, afs, cfs, h0, hal, hd, hf, he => by
+    have h0' : sfs0 = (pre.app (.cons tag atag v .nil)).app r := by rw [SFields.app_snoc]; exact h0
+    have hf' : FreshAll (pre.app (.cons tag atag v .nil)).tags r.tags := by
+      rw [SFields.tags_app]
+      exact freshAll_step pre.tags (tag, atag) r.tags hf hd
+    simp only [SFields.tags, AlignedA] at hal
+    by_cases ht : tagged tag = true
+    · simp only [ht, if_true] at hal
+      cases afs with
+      | nil => exact hal.elim
+      | cons name a nl ar =>
+        obtain ⟨hn, hal'⟩ := hal
+        simp only [encodeTop, ht, if_true] at he
+        have hne : name ≠ [] := by rw [hn]; exact (hd.1 ht).1
+        have hfr : Fresh name pre.tags := by rw [hn]; exact hf (tag, atag) (by simp [SFields.tags]) ht
+        cases hv : encode a v with
+        | error e => simp [hv] at he
+        | ok c =>
+          simp only [hv] at he
+          cases hr : encodeTop ar r with
+          | error e => simp [hr] at he
+          | ok cs =>
+            simp only [hr] at he
+            cases he
+            have ih := encode_byName_pos sfs0 hna r _ ar cs h0' hal' hd.2 hf' hr
+            simp only [AFields.mapM, hasArrow_false sfs0 name hna hne, Bool.false_eq_true, if_false]
+            rw [h0, encodeByTag_app_fresh a name pre _ hfr]
+            simp only [encodeByTag, hn, if_true, hv]
+            rw [← h0]
+            rw [ih]
+    · simp only [ht, Bool.false_eq_true, if_false] at hal
+      simp only [encodeTop, ht, Bool.false_eq_true, if_false] at he
+      exact encode_byName_pos sfs0 hna r _ afs cfs h0' hal hd.2 hf' he
+
+/-! ### by-name decoding of struct children = positional decoding -/
+
+theorem isNull_iff (c : Cell) : c.isNull = true ↔ c = .null := by
+  cases c <;> simp [Cell.isNull]
+
+theorem findArrow_none : ∀ (fs : GoFields) (name : BStr) (k : Nat), NoArrowTags fs.tags → name ≠ [] →
+    GoFields.findArrow name fs k = none
+  | .nil, _, _, _, _ => rfl
+  | .cons tag atag t r, name, k, hna, hne => by
+    have h1 : atag = [] := hna (tag, atag) (by simp [GoFields.tags])
+    have h2 := findArrow_none r name (k + 1) (fun p hp => hna p (by simp [GoFields.tags, hp])) hne
+    subst h1
+    simp only [GoFields.findArrow, tagName_nil, h2]
+    simp only [ite_eq_right_iff]
+    exact fun h => absurd h.symm hne
+
+theorem findTag_app_fresh (name : BStr) : ∀ (pre suf : GoFields) (k : Nat), Fresh name pre.tags →
+    GoFields.findTag name (pre.app suf) k = GoFields.findTag name suf (k + pre.length)
+  | .nil, _, _, _ => rfl
+  | .cons tag atag t r, suf, k, hf => by
+    have h1 : tagName tag ≠ name := hf (tag, atag) (by simp [GoFields.tags])
+    have h2 := findTag_app_fresh name r suf (k + 1) (fun p hp => hf p (by simp [GoFields.tags, hp]))
+    simp only [GoFields.app, GoFields.findTag, h1, if_false, h2, GoFields.length]
+    congr 1
+    omega
+
+theorem setAt_app : ∀ (pre suf : SFields) (j : Nat) (v : Val),
+    (pre.app suf).setAt (pre.length + j) v = pre.app (suf.setAt j v)
+  | .nil, suf, j, v => by simp [SFields.app, SFields.length]
+  | .cons tag atag x r, suf, j, v => by
+    have : (SFields.cons tag atag x r).length + j = (r.length + j) + 1 := by simp [SFields.length]; omega
+    rw [this]
+    simp [SFields.app, SFields.setAt, setAt_app r suf j v]
+
+/-- The cells carry, in order, the tag names of the tagged fields. -/
+def AlignedC : List (BStr × BStr) → CFields → Prop
+  | [], cfs => cfs = .nil
+  | p :: r, cfs =>
+    if tagged p.1 then
+      match cfs with
+      | .nil => False
+      | .cons name _ cr => name = tagName p.1 ∧ AlignedC r cr
+    else AlignedC r cfs
+
+theorem decode_byName_pos (gfs0 : GoFields) (hna : NoArrowTags gfs0.tags) :
+    ∀ (gsuf gpre : GoFields) (spre : SFields) (cfs : CFields) (R : SFields),
+      gfs0 = gpre.app gsuf → spre.length = gpre.length → AlignedC gsuf.tags cfs →
+      NamesDistinct gsuf.tags → FreshAll gpre.tags gsuf.tags →
+      decodeTop gsuf cfs = .ok R →
+      decodeChildren gfs0 cfs (spre.app (zeroFields gsuf)) = .ok (spre.app R)
+  | .nil, gpre, spre, cfs, R, _, _, hal, _, _, he => by
+    simp only [GoFields.tags, AlignedC] at hal
+    subst hal
+    simp only [decodeTop] at he
+    cases he
+    simp [decodeChildren, zeroFields]
+  | .cons tag atag t gr, gpre, spre, cfs, R, h0, hl, hal, hd, hf, he => by
+    have h0' : gfs0 = (gpre.app (.cons tag atag t .nil)).app gr := by rw [GoFields.app_snoc]; exact h0
+    have hf' : FreshAll (gpre.app (.cons tag atag t .nil)).tags gr.tags := by
+      rw [GoFields.tags_app]
+      exact freshAll_step gpre.tags (tag, atag) gr.tags hf hd
+    simp only [GoFields.tags, AlignedC] at hal
+    by_cases ht : tagged tag = true
+    · simp only [ht, if_true] at hal
+      cases cfs with
+      | nil => exact hal.elim
+      | cons name c cr =>
+        obtain ⟨hn, hal'⟩ := hal
+        simp only [decodeTop, ht, if_true] at he
+        have hne : name ≠ [] := by rw [hn]; exact (hd.1 ht).1
+        have hfr : Fresh name gpre.tags := by rw [hn]; exact hf (tag, atag) (by simp [GoFields.tags]) ht
+        cases hv : decode t c with
+        | error e => simp [hv] at he
+        | ok v =>
+          simp only [hv] at he
+          cases hr : decodeTop gr cr with
+          | error e => simp [hr] at he
+          | ok vs =>
+            simp only [hr] at he
+            cases he
+            have hfind : gfs0.find name = some (gpre.length, t) := by
+              unfold GoFields.find
+              rw [findArrow_none gfs0 name 0 hna hne, h0, findTag_app_fresh name gpre _ 0 hfr]
+              simp [GoFields.findTag, hn]
+            have hl' : (spre.app (.cons tag atag v .nil)).length = (gpre.app (.cons tag atag t .nil)).length := by
+              rw [SFields.length_app_snoc, GoFields.length_app_snoc, hl]
+            have ih := decode_byName_pos gfs0 hna gr _ (spre.app (.cons tag atag v .nil)) cr vs h0' hl' hal' hd.2 hf' hr
+            rw [SFields.app_snoc, SFields.app_snoc] at ih
+            simp only [decodeChildren, hfind, zeroFields]
+            by_cases hc : c.isNull = true
+            · have : c = .null := (isNull_iff c).mp hc
+              subst this
+              simp only [decode] at hv
+              cases hv
+              simp only [Cell.isNull, if_true]
+              exact ih
+            · simp only [hc, Bool.false_eq_true, if_false, hv]
+              have := setAt_app spre (.cons tag atag (zeroVal t) (zeroFields gr)) 0 v
+              simp only [Nat.add_zero, SFields.setAt] at this
+              rw [← hl, this]
+              exact ih
+    · simp only [ht, Bool.false_eq_true, if_false] at hal
+      simp only [decodeTop, ht, Bool.false_eq_true, if_false] at he
+      cases hr : decodeTop gr cfs with
+      | error e => simp [hr] at he
+      | ok vs =>
+        simp only [hr] at he
+        cases he
+        have hl' : (spre.app (.cons tag atag (zeroVal t) .nil)).length = (gpre.app (.cons tag atag t .nil)).length := by
+          rw [SFields.length_app_snoc, GoFields.length_app_snoc, hl]
+        have ih := decode_byName_pos gfs0 hna gr _ (spre.app (.cons tag atag (zeroVal t) .nil)) cfs vs h0' hl' hal hd.2 hf' hr
+        rw [SFields.app_snoc, SFields.app_snoc] at ih
+        simp only [zeroFields]
+        exact ih
+
+/-! ### maps: decoding commutes with the key sort -/
+
+def KeyTexts : CKVs → KVs → Prop
+  | .nil, .nil => True
+  | .cons ck _ cr, .cons k _ r => cellKeyText ck = valKeyText k ∧ KeyTexts cr r
+  | _, _ => False
+
+theorem decodeKVs_insert (kt vt : GoTy) (ck cv : Cell) (k v : Val)
+    (hk : decode kt ck = .ok k) (hv : decode vt cv = .ok v) (ht : cellKeyText ck = valKeyText k) :
+    ∀ (cs : CKVs) (r : KVs), decodeKVs kt vt cs = .ok r → KeyTexts cs r →
+      decodeKVs kt vt (insertCKV ck cv cs) = .ok (insertKV k v r) ∧ KeyTexts (insertCKV ck cv cs) (insertKV k v r)
+  | .nil, r, hd, _ => by
+    simp only [decodeKVs] at hd
+    cases hd
+    simp [insertCKV, insertKV, decodeKVs, hk, hv, KeyTexts, ht]
+  | .cons ck' cv' cr, r, hd, hx => by
+    simp only [decodeKVs] at hd
+    cases hk' : decode kt ck' with
+    | error e => simp [hk'] at hd
+    | ok k' =>
+      cases hv' : decode vt cv' with
+      | error e => simp [hk', hv'] at hd
+      | ok v' =>
+        cases hr' : decodeKVs kt vt cr with
+        | error e => simp [hk', hv', hr'] at hd
+        | ok r' =>
+          simp only [hk', hv', hr'] at hd
+          cases hd
+          simp only [KeyTexts] at hx
+          have hlt : cellKeyLt ck' ck = valKeyLt k' k := by simp [cellKeyLt, valKeyLt, hx.1, ht]
+          have ih := decodeKVs_insert kt vt ck cv k v hk hv ht cr r' hr' hx.2
+          simp only [insertCKV, insertKV, hlt]
+          by_cases hc : valKeyLt k' k = true
+          · simp only [hc, if_true, decodeKVs, hk', hv', ih.1, KeyTexts, hx.1, ih.2, and_self]
+          · simp only [hc, Bool.false_eq_true, if_false, decodeKVs, hk, hv, hk', hv', hr', KeyTexts, ht, hx.1, hx.2, and_self]
+
+theorem decodeKVs_sort (kt vt : GoTy) : ∀ (cs : CKVs) (r : KVs), decodeKVs kt vt cs = .ok r → KeyTexts cs r →
+    decodeKVs kt vt (sortCKVs cs) = .ok (sortKVs r) ∧ KeyTexts (sortCKVs cs) (sortKVs r)
+  | .nil, r, hd, _ => by
+    simp only [decodeKVs] at hd
+    cases hd
+    simp [sortCKVs, sortKVs, decodeKVs, KeyTexts]
+  | .cons ck cv cr, r, hd, hx => by
+    simp only [decodeKVs] at hd
+    cases hk : decode kt ck with
+    | error e => simp [hk] at hd
+    | ok k =>
+      cases hv : decode vt cv with
+      | error e => simp [hk, hv] at hd
+      | ok v =>
+        cases hr : decodeKVs kt vt cr with
+        | error e => simp [hk, hv, hr] at hd
+        | ok r' =>
+          simp only [hk, hv, hr] at hd
+          cases hd
+          simp only [KeyTexts] at hx
+          have ih := decodeKVs_sort kt vt cr r' hr hx.2
+          simp only [sortCKVs, sortKVs]
+          exact decodeKVs_insert kt vt ck cv k v hk hv hx.1 _ _ ih.1 ih.2
+
+theorem encodeInt_id (w : ITy) (x : Int) (hw : bitsOK w) (h : w.InRange x) : encodeInt w x = x := by
+  have e1 := wrap_i64_of_inRange w x hw h
+  have e2 := wrap_of_inRange w x hw.1 h
+  unfold encodeInt
+  cases hs : w.signed <;> simp_all
+
+/-! ### facts read off `WTfields` -/
+
+theorem wtfields_tags : ∀ (sfs : SFields) (gfs : GoFields) (afs : AFields), WTfields gfs afs sfs → gfs.tags = sfs.tags
+  | .nil, gfs, afs, h => by
+    simp only [WTfields] at h
+    rw [h.1]; rfl
+  | .cons tag atag v r, gfs, afs, h => by
+    cases gfs with
+    | nil => simp [WTfields] at h
+    | cons gtag gatag t gr =>
+      simp only [WTfields] at h
+      obtain ⟨h1, h2, h3⟩ := h
+      subst h1; subst h2
+      by_cases ht : tagged gtag = true
+      · simp only [ht, if_true] at h3
+        cases afs with
+        | nil => exact h3.elim
+        | cons name a nl ar => simp [GoFields.tags, SFields.tags, wtfields_tags r gr ar h3.2.2]
+      · simp only [ht, Bool.false_eq_true, if_false] at h3
+        simp [GoFields.tags, SFields.tags, wtfields_tags r gr afs h3]
+
+theorem wtfields_alignedA : ∀ (sfs : SFields) (gfs : GoFields) (afs : AFields), WTfields gfs afs sfs → AlignedA sfs.tags afs
+  | .nil, gfs, afs, h => by
+    simp only [WTfields] at h
+    simp [SFields.tags, AlignedA, h.2]
+  | .cons tag atag v r, gfs, afs, h => by
+    cases gfs with
+    | nil => simp [WTfields] at h
+    | cons gtag gatag t gr =>
+      simp only [WTfields] at h
+      obtain ⟨h1, h2, h3⟩ := h
+      subst h1; subst h2
+      by_cases ht : tagged gtag = true
+      · simp only [ht, if_true] at h3
+        cases afs with
+        | nil => exact h3.elim
+        | cons name a nl ar =>
+          simp only [SFields.tags, AlignedA, ht, if_true]
+          exact ⟨h3.1, wtfields_alignedA r gr ar h3.2.2⟩
+      · simp only [ht, Bool.false_eq_true, if_false] at h3
+        simp only [SFields.tags, AlignedA, ht, Bool.false_eq_true, if_false]
+        exact wtfields_alignedA r gr afs h3
+
+/-- A map key cell has the key text of the key that comes back. -/
+theorem key_text (kt : GoTy) (ka : ATy) (k : Val) (c : Cell) (hk : KeyTy kt ka) (hw : WT kt ka k)
+    (he : encode ka k = .ok c) : cellKeyText c = valKeyText (canon kt ka k) := by
+  unfold KeyTy at hk
+  split at hk
+  · -- string keys
+    cases k <;> simp [WT, derefTy, isPtr, LeafWT] at hw
+    simp only [encode, encodeLeaf] at he
+    cases he
+    simp [cellKeyText, canon, leafCanon, valKeyText]
+  · -- integer keys
+    rename_i g w
+    cases k <;> simp [WT, derefTy, isPtr, LeafWT] at hw
+    rename_i x
+    simp only [encode, encodeLeaf] at he
+    cases he
+    simp [cellKeyText, canon, leafCanon, valKeyText, encodeInt_id w x hw.2.1 hw.2.2.2]
+  · exact hk.elim
+
+/-! ### the structural round trip -/
+
+mutual
+theorem rt_val : ∀ (v : Val) (t : GoTy) (a : ATy), WT t a v →
+    ∃ c, encode a v = .ok c ∧ decode t c = .ok (canon t a v)
+  | .nil, t, a, h => by
+    refine ⟨.null, by simp [encode], ?_⟩
+    cases t <;> simp [WT, isPtr] at h
+    simp [decode, zeroVal, canon]
+  | .slice isNil vs, t, a, h => by
+    simp only [WT] at h
+    split at h
+    · rename_i et ea hd
+      obtain ⟨cs, he, hdd⟩ := rt_vals vs et ea h.2
+      exact ⟨.list cs, by simp [encode, he], by simp [decode, hd, hdd, canon]⟩
+    · exact h.elim
+  | .map isNil kvs, t, a, h => by
+    simp only [WT] at h
+    split at h
+    · rename_i kt vt ka va hd
+      obtain ⟨cs, he, hdd, hx⟩ := rt_kvs kvs kt vt ka va h.2.1 h.2.2
+      have hs := decodeKVs_sort kt vt cs _ hdd hx
+      exact ⟨.map (sortCKVs cs), by simp [encode, he], by simp [decode, hd, hs.1, canon]⟩
+    · exact h.elim
+  | .struct sfs, t, a, h => by
+    simp only [WT] at h
+    split at h
+    · rename_i gfs afs hd
+      obtain ⟨hna, hnd, hf⟩ := h
+      obtain ⟨cfs, he, hdd, hal⟩ := rt_fields sfs gfs afs hf
+      have htags := wtfields_tags sfs gfs afs hf
+      have hE := encode_byName_pos sfs (by rw [← htags]; exact hna) sfs .nil afs cfs rfl
+        (wtfields_alignedA sfs gfs afs hf) (by rw [← htags]; exact hnd) (fun p _ _ q hq => by simp [SFields.tags] at hq) he
+      have hD := decode_byName_pos gfs hna gfs .nil .nil cfs _ rfl rfl (by rw [htags]; exact hal) hnd
+        (fun p _ _ q hq => by simp [GoFields.tags] at hq) hdd
+      simp only [SFields.app] at hD
+      exact ⟨.struct cfs, by simp [encode, hE], by simp [decode, hd, hD, canon]⟩
+    · exact h.elim
+  | .int x, t, a, h => by
+    obtain ⟨c, he, _, hd⟩ := leaf_roundtrip t a (.int x) (by simpa [WT] using h)
+    exact ⟨c, by simp [encode, he], by simp [canon, hd]⟩
+  | .f32 x, t, a, h => by
+    obtain ⟨c, he, _, hd⟩ := leaf_roundtrip t a (.f32 x) (by simpa [WT] using h)
+    exact ⟨c, by simp [encode, he], by simp [canon, hd]⟩
+  | .f64 x, t, a, h => by
+    obtain ⟨c, he, _, hd⟩ := leaf_roundtrip t a (.f64 x) (by simpa [WT] using h)
+    exact ⟨c, by simp [encode, he], by simp [canon, hd]⟩
+  | .bool x, t, a, h => by
+    obtain ⟨c, he, _, hd⟩ := leaf_roundtrip t a (.bool x) (by simpa [WT] using h)
+    exact ⟨c, by simp [encode, he], by simp [canon, hd]⟩
+  | .str x, t, a, h => by
+    obtain ⟨c, he, _, hd⟩ := leaf_roundtrip t a (.str x) (by simpa [WT] using h)
+    exact ⟨c, by simp [encode, he], by simp [canon, hd]⟩
+  | .bytes x, t, a, h => by
+    obtain ⟨c, he, _, hd⟩ := leaf_roundtrip t a (.bytes x) (by simpa [WT] using h)
+    exact ⟨c, by simp [encode, he], by simp [canon, hd]⟩
+  | .time x, t, a, h => by
+    obtain ⟨c, he, _, hd⟩ := leaf_roundtrip t a (.time x) (by simpa [WT] using h)
+    exact ⟨c, by simp [encode, he], by simp [canon, hd]⟩
+  | .dur x, t, a, h => by
+    obtain ⟨c, he, _, hd⟩ := leaf_roundtrip t a (.dur x) (by simpa [WT] using h)
+    exact ⟨c, by simp [encode, he], by simp [canon, hd]⟩
+theorem rt_vals : ∀ (vs : Vals) (et : GoTy) (ea : ATy), WTs et ea vs →
+    ∃ cs, encodeElems ea vs = .ok cs ∧ decodeElems et cs = .ok (canons et ea vs)
+  | .nil, _, _, _ => ⟨.nil, by simp [encodeElems], by simp [decodeElems, canons]⟩
+  | .cons v r, et, ea, h => by
+    simp only [WTs] at h
+    obtain ⟨c, he, hd⟩ := rt_val v et ea h.1
+    obtain ⟨cs, hes, hds⟩ := rt_vals r et ea h.2
+    exact ⟨.cons c cs, by simp [encodeElems, he, hes], by simp [decodeElems, hd, hds, canons]⟩
+theorem rt_kvs : ∀ (kvs : KVs) (kt vt : GoTy) (ka va : ATy), KeyTy kt ka → WTkvs kt vt ka va kvs →
+    ∃ cs, encodeKVs ka va kvs = .ok cs ∧ decodeKVs kt vt cs = .ok (canonKVs kt vt ka va kvs) ∧
+      KeyTexts cs (canonKVs kt vt ka va kvs)
+  | .nil, _, _, _, _, _, _ => ⟨.nil, by simp [encodeKVs], by simp [decodeKVs, canonKVs], by simp [canonKVs, KeyTexts]⟩
+  | .cons k v r, kt, vt, ka, va, hk, h => by
+    simp only [WTkvs] at h
+    obtain ⟨ck, hek, hdk⟩ := rt_val k kt ka h.1
+    obtain ⟨cv, hev, hdv⟩ := rt_val v vt va h.2.1
+    obtain ⟨cs, hes, hds, hxs⟩ := rt_kvs r kt vt ka va hk h.2.2
+    have htx := key_text kt ka k ck hk h.1 hek
+    exact ⟨.cons ck cv cs, by simp [encodeKVs, hek, hev, hes], by simp [decodeKVs, hdk, hdv, hds, canonKVs],
+      by simp [canonKVs, KeyTexts, htx, hxs]⟩
+theorem rt_fields : ∀ (sfs : SFields) (gfs : GoFields) (afs : AFields), WTfields gfs afs sfs →
+    ∃ cfs, encodeTop afs sfs = .ok cfs ∧ decodeTop gfs cfs = .ok (canonFields gfs afs sfs) ∧ AlignedC sfs.tags cfs
+  | .nil, gfs, afs, h => by
+    simp only [WTfields] at h
+    obtain ⟨h1, h2⟩ := h
+    subst h1; subst h2
+    exact ⟨.nil, by simp [encodeTop], by simp [decodeTop, canonFields], by simp [SFields.tags, AlignedC]⟩
+  | .cons tag atag v r, gfs, afs, h => by
+    cases gfs with
+    | nil => simp [WTfields] at h
+    | cons gtag gatag t gr =>
+      simp only [WTfields] at h
+      obtain ⟨h1, h2, h3⟩ := h
+      subst h1; subst h2
+      by_cases ht : tagged gtag = true
+      · simp only [ht, if_true] at h3
+        cases afs with
+        | nil => exact h3.elim
+        | cons name a nl ar =>
+          obtain ⟨hn, hw, hr⟩ := h3
+          obtain ⟨c, he, hd⟩ := rt_val v t a hw
+          obtain ⟨cs, hes, hds, hal⟩ := rt_fields r gr ar hr
+          exact ⟨.cons name c cs, by simp [encodeTop, ht, he, hes], by simp [decodeTop, ht, hd, hds, canonFields],
+            by simp [SFields.tags, AlignedC, ht, hn, hal]⟩
+      · simp only [ht, Bool.false_eq_true, if_false] at h3
+        obtain ⟨cs, hes, hds, hal⟩ := rt_fields r gr afs h3
+        exact ⟨cs, by simp [encodeTop, ht, hes], by simp [decodeTop, ht, hds, canonFields],
+          by simp [SFields.tags, AlignedC, ht, hal]⟩
+end
+
+end Vgi.Values
